@@ -11,7 +11,7 @@
      c18 check-published ( view ) -> the same over published_defs;
      c18 match x<pattern> x<value> -> supported(1/0) matches(1/0). *)
 From Coq Require Import ZArith List String Bool.
-From Verif Require Import Base.Wire Defs.DefTypes Defs.DefEq Defs.RefCheck Defs.RefCheckShipped.
+From Verif Require Import Base.Wire Defs.DefTypes Defs.DefEq Defs.RefCheck Defs.RefTables.
 Import ListNotations.
 Open Scope Z_scope.
 
